@@ -36,10 +36,8 @@ mod c16 {
         let c = decode_reg(&mut cur, max_insts);
         kani::assume(c.max_reg_count >= 1);
         if c.validate().is_ok() {
-            let inputs = decode_inputs(&mut cur, &c.input_regs);
             kani::cover!(true, "some circuit validates");
-            let expected = ref_eval_reg(&c, &inputs);
-            assert!(expected.is_ok(), "validated circuit reads only existing, defined registers and inputs");
+            assert!(valid_spec_reg(&c).is_ok(), "validated circuit reads only existing, defined registers and inputs");
         }
     }
 
@@ -67,7 +65,7 @@ mod c16 {
 
     /// C16 (SSA circuits).  BOUNDED: <= 2 gates, <= 2 parties x <= 2 bits, <= 2 outputs.
     #[kani::proof]
-    #[kani::unwind(6)]
+    #[kani::unwind(5)]
     fn c16_ssa_eval_safe_2() {
         let mut cur = KaniSrc;
         let c = decode_ssa(&mut cur, 2);
